@@ -21,7 +21,7 @@ def make(cfg):
     info = CouplingsInfo(alphas=cfg["alphas"], alphaem=0.00781, ref=(TOK_MU2[rtok] ** 0.5, rnf), em_running=cfg["running"])
     return Couplings(info, order=(cfg["qcd"], cfg["qed"]),
                      method=CouplingEvolutionMethod.EXACT if cfg["method"] == "exact" else CouplingEvolutionMethod.EXPANDED,
-                     masses=[TOK_MU2[2], TOK_MU2[4], TOP], hqm_scheme=QuarkMassScheme.POLE if cfg["scheme"] == "POLE" else QuarkMassScheme.MSBAR,
+                     masses=[TOK_MU2[2], TOK_MU2[4], cfg.get("top", TOP)], hqm_scheme=QuarkMassScheme.POLE if cfg["scheme"] == "POLE" else QuarkMassScheme.MSBAR,
                      thresholds_ratios=[1.0, 1.0, 1.0])
 
 
@@ -119,9 +119,15 @@ def random_token_history(rng, n):
     return hist
 
 
-def random_free_history(rng, n):
-    """Arbitrary scales: repeated, close to walls and to the reference (short segments), downward."""
+FREE_TOP = 1e4   # a reachable top matching scale for the free histories (the token model keeps it out of reach)
+
+
+def random_free_history(rng, n, top=None):
+    """Arbitrary scales: repeated, close to walls and to the reference (short segments), downward.
+    With a reachable top matching scale: also six flavours and scales on both sides of it."""
     specials = [TOK_MU2[2], TOK_MU2[4], TOK_MU2[3], TOK_MU2[2] * (1 + 1e-7), TOK_MU2[4] * (1 - 1e-7), TOK_MU2[3] * (1 + 3e-6)]
+    if top:
+        specials += [top, top * (1 + 1e-7), top * 3.0]
     hist = []
     nq = 0
     for _ in range(n):
@@ -135,8 +141,8 @@ def random_free_history(rng, n):
             prev = [h for h in hist if h[0] == "q"]
             mu2 = rng.choice(prev)[1] if prev else rng.uniform(1.5, 500)
         else:
-            mu2 = 10 ** rng.uniform(0.2, 2.7)
-        hist.append(("q", mu2, rng.choice([3, 4, 5])))
+            mu2 = 10 ** rng.uniform(0.2, 5.0 if top else 2.7)
+        hist.append(("q", mu2, rng.choice([3, 4, 5, 6] if top else [3, 4, 5])))
         nq += 1
     return hist
 
